@@ -38,7 +38,10 @@ type spec struct {
 	Depth  int      `json:"depth"`
 	Base   string   `json:"base,omitempty"`
 	Strace bool     `json:"strace"`
+	Lazy   bool     `json:"lazy_snapshot,omitempty"`
 	Names  []string `json:"names,omitempty"`
+	// replay of an archive: the exact entry list of the witness
+	Entries []zipEntry `json:"entries,omitempty"`
 }
 
 const rule = "per component a PRNG-determined list of names (plain in-root paths, relative paths to existing canaries outside the root, " +
@@ -82,15 +85,18 @@ func main() {
 		add(sp, "replay")
 	} else {
 		perComp := cfg.N(2000, 50000)
-		shards := cfg.N(3, 24)
+		shards := cfg.N(4, 24)
 		for _, comp := range comps {
 			for s := 0; s < shards; s++ {
 				n := perComp / shards
 				if s == 0 {
 					n += perComp % shards
 				}
-				// thorough: every shard is traced; quick: one extra small traced shard per component
-				add(spec{Comp: comp, Tier: cfg.Tier, Seed: cfg.Seed, Shard: s, N: n, Depth: 1 + s%4, Strace: cfg.Thorough()}, "s")
+				// quick: one extra small traced shard per component (added below)
+				// thorough: two of three shards run under strace (path-access oracle, lazy
+				// snapshots), the third untraced with a snapshot after every single call
+				traced := cfg.Thorough() && s%3 != 2
+				add(spec{Comp: comp, Tier: cfg.Tier, Seed: cfg.Seed, Shard: s, N: n, Depth: 1 + s%4, Strace: traced, Lazy: traced}, "s")
 			}
 			if !cfg.Thorough() {
 				add(spec{Comp: comp, Tier: cfg.Tier, Seed: cfg.Seed, Shard: 100, N: 250, Depth: 1 + int(cfg.Seed%4), Strace: true}, "t")
@@ -147,15 +153,12 @@ func replaySpec(cfg vlib.Cfg) (spec, error) {
 	var doc struct {
 		Seed   uint64 `json:"seed"`
 		Detail struct {
-			Comp  string `json:"comp"`
-			Name  string `json:"name"`
-			Depth int    `json:"depth"`
-			Base  string `json:"base"`
-			Shard int    `json:"shard"`
-			Extra []struct {
-				Name    string `json:"name"`
-				Hostile bool   `json:"from_name_list"`
-			} `json:"extra"`
+			Comp  string     `json:"comp"`
+			Name  string     `json:"name"`
+			Depth int        `json:"depth"`
+			Base  string     `json:"base"`
+			Shard int        `json:"shard"`
+			Extra []zipEntry `json:"extra"`
 		} `json:"detail"`
 	}
 	b, err := os.ReadFile(cfg.Replay)
@@ -193,14 +196,10 @@ func replaySpec(cfg vlib.Cfg) (spec, error) {
 		seed = cfg.Seed
 	}
 	names := []string{doc.Detail.Name}
+	sp := spec{Comp: doc.Detail.Comp, Tier: cfg.Tier, Seed: seed, Shard: doc.Detail.Shard, N: len(names), Depth: doc.Detail.Depth,
+		Base: doc.Detail.Base, Names: names, Strace: true}
 	if doc.Detail.Comp == "unpack" && len(doc.Detail.Extra) > 0 {
-		names = nil
-		for _, e := range doc.Detail.Extra {
-			if e.Hostile {
-				names = append(names, e.Name)
-			}
-		}
+		sp.Entries = doc.Detail.Extra
 	}
-	return spec{Comp: doc.Detail.Comp, Tier: cfg.Tier, Seed: seed, Shard: doc.Detail.Shard, N: len(names), Depth: doc.Detail.Depth,
-		Base: doc.Detail.Base, Names: names}, nil
+	return sp, nil
 }
